@@ -186,6 +186,24 @@ def sc_c11(name, seed, counts, tier):
         f = discover(0, m, gen=7, seq=9, stations=[OWN, key_mac(9)])
         for fill in (0, 0xFF, 1):      # what the rest of the receive buffer happens to hold
             lines.append("CLASSIFY %d %d %s" % (ln, fill, f[:ln].hex() or "-"))
+    # classification after table histories: the receive loops classify a Discover and then record it, so the
+    # entry a Discover is compared with has a past (earlier transactions, generations, removals, expiry)
+    lines.append("TCLEAR")
+    for _ in range(160 if tier == "quick" else 600):
+        k, g, sq = rng.choice([1, 1, 2]), rng.choice([7, 7, 8]), rng.choice([3, 4, 4, 9, 0])
+        x = rng.random()
+        if x < 0.08:
+            lines.append("TREM %d %d" % (k, g))
+        elif x < 0.14:
+            lines.append("ADV %d" % rng.choice([1000, 29000, 31000, 61000]))
+            lines.append("TTICK")
+        elif x < 0.17:
+            lines.append("TCOMP %d %d" % (k, g))
+        else:
+            f = discover(rng.choice([0, 1]), key_mac(k), gen=g, seq=sq, stations=[OWN] if rng.random() < 0.5 else [key_mac(9)])
+            lines.append("CLASSIFY %d 0 %s" % (len(f), f.hex()))
+            if rng.random() < 0.8:
+                lines.append("TADD %d %d %d" % (k, g, sq))
     return Scenario(name, lines)
 
 
@@ -337,13 +355,20 @@ def campaign_c12(seed, tier):
             lines += ["TICK", "ADV 100", "TICK", "ADV 1000", "TICK", "ADV 31000", "TADD 1 1 3", "TICK", "ADV 1000", "TICK"]
             scs.append(Scenario("c12-apigap-%d-%s" % (gap, variant), lines))
     # a session that is never acknowledged: periodic Hellos must flow (keeps the check non-vacuous)
-    lines = ["NEW"]
-    f = discover(0, key_mac(1), gen=1, seq=1, stations=[key_mac(9)])
-    lines.append("GLUE %d 0 %s" % (len(f), f.hex()))
-    for _ in range(400):
-        lines.append("ADV 100")
-        lines.append("TICK")
-    scs.append(Scenario("c12-steady", lines))
+    # ... wherever the monotonic clock stands: just before its millisecond or second count crosses a power of two
+    # (2^32 ms is 49.7 days of uptime), the deadlines armed before the crossing are due after it
+    origins = [None, (1 << 32) - 13000, (1 << 32) - 500, (1 << 31) - 5000, (1 << 31) * 1000 - 20000, (1 << 32) * 1000 - 7000,
+               (1 << 33) - 29500, 86400000 * 49]
+    for oi, org in enumerate(origins if tier == "quick" else origins + [rng.randrange(1 << 44) for _ in range(40)]):
+        lines = (["CLOCK %d" % org] if org is not None else []) + ["NEW"]
+        f = discover(0, key_mac(1), gen=1, seq=1, stations=[key_mac(9)])
+        lines.append("GLUE %d 0 %s" % (len(f), f.hex()))
+        for _ in range(400 if oi == 0 else 330):
+            lines.append("ADV 100")
+            lines.append("TICK")
+        if oi:
+            lines += ["ADV 31000", "TICK", "ADV 30000", "TICK", "ADV 100", "TICK"]
+        scs.append(Scenario("c12-steady" + ("-%d" % oi if oi else ""), lines))
     return scs
 
 
